@@ -269,6 +269,21 @@ def _sequential_exec(ir):
         return False, f"sequentialize on a cyclic model did not raise; order {after}"
     if before != after:
         return False, f"sequentialize raised but changed the model: {before} -> {after}"
+    # the loop may sit anywhere: first, in the middle, last, or be the whole model
+    for src in ("!equations\n  c = 0.5*c[-1];\n  d = c;\n  a = b + d;\n  b = a;\n", "!equations\n  a = b;\n  b = a;\n",
+                "!equations\n  c = 0.5*c[-1];\n  a = b + c;\n  b = a;\n  d = c + 1;\n"):
+        mm = ir.Sequential.from_string(src)
+        bef = [e.lhs_name for e in mm.iter_equations()]
+        try:
+            got = mm.sequentialize()
+            rs = False
+        except Exception:
+            rs = True
+        aft = [e.lhs_name for e in mm.iter_equations()]
+        if not rs:
+            return False, f"sequentialize on a model with the loop a<->b ({bef}) did not raise; returned {got}, equations now {aft}"
+        if bef != aft:
+            return False, f"sequentialize raised on {bef} but changed the model to {aft}"
     src_ok = "!equations\n  w = x + z;\n  x = y + 1;\n  y = 0.5*y[-1];\n  z = y - x;\n"
     m2 = ir.Sequential.from_string(src_ok)
     order = m2.sequentialize()
